@@ -90,17 +90,8 @@ R.field_types("Certificate", request_context="bytes", certificates="list[tuple[b
 R.field_types("CertificateRequest", request_context="bytes", signature_algorithms="Optional[list[int]]", other_extensions="list[tuple[int,bytes]]")
 R.field_types("CertificateVerify", algorithm="int", signature="bytes")
 R.field_types("Finished", verify_data="bytes")
-for _p in ("server_hello", "client_hello", "encrypted_extensions", "certificate", "certificate_request", "certificate_verify", "finished", "new_session_ticket"):
-    R.contract(
-        "pull_" + _p,
-        trusted=True,
-        # what the parsers raise by reading them: BufferReadError (truncated), AlertDecodeError (block length), AssertionError
-        # (pull_handshake_type), IndexError / UnicodeDecodeError ...: all covered by "some exception"; never the
-        # unexpected-message alert
-        raises={"BufferReadError": None, "Alert": None, "Exception": None},
-        modifies=["buf.g_pos"],
-        note="tls.py message parser: trusted stub (returns an arbitrary well-typed message object, only moves the read position)",
-    )
+# the message parsers pull_<message> are under exception-effect contracts of their own (contracts/tls_noraise.py, C05):
+# they raise only BufferReadError / tls.Alert subclasses, move only the read position and return a new message object
 
 # ------------------------------------------------------------------------------------------------ Context
 R.field_types(
